@@ -260,6 +260,13 @@ def check_outputs(mir, nodes, outs):
                 if key in node.f and node.f[key] is not None and b.get(key) != node.f[key]:
                     raise Mismatch(f"operation {k}: wrote {key} {node.f[key]!r}, MIR records {b.get(key)!r}")
             kids = mir_kids(name, b)
+            if name == "New" and isinstance(node.members, dict):
+                # a consumer pairs element i with the i-th field of the recorded Object type
+                ty = b.get("type")
+                fields = [kv[0] for kv in ty["Object"]["types"]] if isinstance(ty, dict) and "Object" in ty else None
+                if fields != list(node.members):
+                    raise Mismatch(f"operation {k}: Object written with fields {list(node.members)} (elements in that order), "
+                                   f"its recorded type lists the fields as {fields}")
             if len(kids) != len(node.kids):
                 raise Mismatch(f"operation {k} ({name}): wrote {len(node.kids)} operands, MIR has {len(kids)}")
             if node.fn is not None:
